@@ -236,12 +236,29 @@ def perform(scn: Dict[str, Any], *, form: str, profile: str = "plain", salt: int
         if c == "sub":
             rec = out.setdefault(k, [])
             kw = {"scheduler": ts} if sub_sched else {}
-            target = ys[a].pipe(_ops().take(1)) if cmd.get("m", "all") == "once" else ys[a]
-            handles[k] = target.subscribe(on_next=lambda v, r=rec: r.append((secs(ts.clock), "N", v)),
-                                         on_error=lambda x, r=rec: r.append((secs(ts.clock), "E", x)),
-                                         on_completed=lambda r=rec: r.append((secs(ts.clock), "C", None)), **kw)
+            mode = cmd.get("m", "all")
+            target = ys[a].pipe(_ops().take(1)) if mode == "once" else ys[a]
+
+            def recorder(r):
+                return dict(on_next=lambda v: r.append((secs(ts.clock), "N", v)),
+                            on_error=lambda x: r.append((secs(ts.clock), "E", x)),
+                            on_completed=lambda: r.append((secs(ts.clock), "C", None)))
+            cb = recorder(rec)
+            if mode == "spawn":
+                # on its first element the subscriber subscribes its child (id k+1) to the same observable,
+                # from inside the delivery - possibly while it is itself still being subscribed
+                child, plain_next = k + 1, cb["on_next"]
+
+                def spawning_next(v):
+                    plain_next(v)
+                    if child not in handles:
+                        handles[child] = None        # re-entrancy guard: exactly one child
+                        handles[child] = ys[a].subscribe(**recorder(out.setdefault(child, [])), **kw)
+                cb["on_next"] = spawning_next
+            handles[k] = target.subscribe(**cb, **kw)
         elif c == "unsub":
-            handles[k].dispose()
+            if handles.get(k) is not None:
+                handles[k].dispose()
         elif c == "connect":
             h = cx[a].connect()
             if (a, e) in conns and conns[(a, e)] is not h:
@@ -293,6 +310,7 @@ def perform(scn: Dict[str, Any], *, form: str, profile: str = "plain", salt: int
 
     subs = [[[inst(secs(s.subscribe)), inst(secs(s.unsubscribe))] for s in xs[a].subscriptions] for a in range(1, napps + 1)]
     app_of = {cmd["k"]: cmd["a"] for cmd in hist if cmd["c"] == "sub"}
+    app_of.update({cmd["k"] + 1: cmd["a"] for cmd in hist if cmd["c"] == "sub" and cmd.get("m") == "spawn"})
     outs = {}
     for k, rec in out.items():
         a = app_of[k]
@@ -315,7 +333,7 @@ def expected(scn, obs):
     subs = [[[x["s"], x["e"]] for x in seq(row) if x["s"] != x["e"]] for row in seq(obs["subs"])]
     outs = {}
     for k, row in enumerate(seq(obs["out"]), start=1):
-        if any(c["c"] == "sub" and c["k"] == k for c in seq(scn["hist"])):
+        if any(c["c"] == "sub" and (c["k"] == k or (c.get("m") == "spawn" and c["k"] + 1 == k)) for c in seq(scn["hist"])):
             outs[k] = [[x["t"], x["k"], x["v"] if x["k"] == "N" else 0] for x in seq(row)]
     return subs, outs
 
@@ -337,7 +355,8 @@ def compare(scn, obs, got) -> Optional[str]:
 
 
 def has_once(scn) -> bool:
-    return any(c.get("m", "all") == "once" for c in seq(scn["hist"]))
+    """a subscriber that reacts from inside a delivery (self-unsubscribe / re-entrant subscribe): synchronous forms only"""
+    return any(c.get("m", "all") != "all" for c in seq(scn["hist"]))
 
 
 def witnesses(scn) -> Dict[str, Any]:
